@@ -8,6 +8,7 @@ C  every hook-grain interleaving of recorders / periodic snapshot / final totals
 import copy
 import json
 import vlib
+import runtraces
 
 
 def key_of(t):
@@ -66,6 +67,9 @@ def run(tier, seed, replay_rows=None):
               key_of=key_of, nontrivial=nontrivial, distinct_key=lambda t: "%d/%d/%d:%s" % (t["nrec"], t["adds"], t["nsnap"], t["sched"]),
               describe=lambda t: json.dumps(dict(cfg=[t["nrec"], t["adds"], t["nsnap"]], sched=t["sched"], ev=t["ev"], err=t["err"])),
               selftest=selftest, replay_rows=replay_rows, workers=4)
+    if replay_rows is None:
+        # run-level clauses of this property on whole-run traces (F1Run observer)
+        runtraces.check(ck, "C01")
     return ck.finish()
 
 
